@@ -1,8 +1,100 @@
 import NflowsModel.Core.Driver
-/-! Core/Ops/C20 — driver operations used by the C20 correspondence (executable model, Mathlib-free). -/
+import NflowsModel.Core.TorchUtils
+/-! Core/Ops/C20 — driver operations used by the C20 correspondence (executable model, Mathlib-free).
+
+Requests (besides the common fields of `Req`):
+* `c20.tile` / `c20.repeat_rows` / `c20.merge` / `c20.sum` : `"shape":[nat]`, `"data":[int]`, `"n":PyVal`
+* `c20.split` : `"shape"`, `"data"`, `"sh":[int]`
+  → `f[0]` = result shape, `i` = result data, `e` = error kind
+* `c20.pred` : `"v":PyVal` → `i` = [is_bool, is_int, is_positive_int, is_nonnegative_int, is_power_of_two]
+* `c20.mask` : `s=[kind]`, `i=[features, even]` → `i` = mask ; `c20.randmask` : `i=[features]` → `i=[count]`
+* `c20.searchsorted` : `p`, `i=[rowLen]`, `f=[locs (rows concatenated), inputs]`, `d=[eps]`
+  → `i` = indices, `f[0]` = the caller's `bin_locations` buffer after the calls
+* `c20.cbrt` : `p`, `f=[xs]` → `f[0]` ; `c20.temp` : `p`, `f=[[max, bound]]` → `i=[isTensor]`, `f[0]=[value]`
+* `c20.logabsdet` : `i=[n]`, `"data":[int]` (row-major) → `i=[det]`, `f[0]=[log|det| as binary64]`
+* `c20.kde` : `p`, `i=[N, D]`, `f=[samples flat, query]`, `d=[std, dconst]` → `f[0]=[value]`
+PyVal JSON: `{"t":"int","v":k}` | `{"t":"bool","v":0|1}` | `{"t":"float"}` | `{"t":"none"}` | `{"t":"str"}` | `{"t":"other"}`.
+-/
+open Lean
 namespace NF
+open TU
+
+def jField (j : Json) (k : String) : Json := (j.getObjVal? k).toOption.getD Json.null
+
+def pyValOfJson (j : Json) : PyVal :=
+  match (jField j "t").getStr?.toOption.getD "" with
+  | "int" => .int (jInt (jField j "v"))
+  | "bool" => .bool (jInt (jField j "v") != 0)
+  | "float" => .float
+  | "none" => .none
+  | "str" => .str
+  | _ => .other
+
+def tensorOfReq (r : Req) : T Int :=
+  ⟨((jArr (jField r.raw "shape")).map jNat).toList, ((jArr (jField r.raw "data")).map jInt).toList⟩
+
+def tensorResp (x : Except Err (T Int)) : Resp :=
+  match x with
+  | .ok t => { fs := [t.shape], ints := t.data }
+  | .error e => errResp e
+
+def chunk20 {β : Type} (m : Nat) (xs : List β) : List (List β) :=
+  if m == 0 then [] else (List.range (xs.length / m)).map (fun i => (xs.drop (i * m)).take m)
+
+def runSearch {α : Type} [Bits α] (o : XOps α) (r : Req) : Resp :=
+  let m := r.nat 0
+  let rows : List (List α) := chunk20 m (r.fl 0)
+  let xs : List α := r.fl 1
+  let outs := (rows.zip xs).map (fun (row, x) => searchsorted o (r.d 0) row x)
+  { ints := outs.map (·.result), fs := [bitsOf (outs.map (·.callerAfter)).flatten] }
+
+def runCbrt {α : Type} [Bits α] (o : XOps α) (r : Req) : Resp :=
+  { fs := [bitsOf ((r.fl 0 : List α).map (cbrtG o))] }
+
+def runTemp {α : Type} [Bits α] (o : XOps α) (r : Req) : Resp :=
+  let a : List α := r.fl 0
+  let (isT, v) := getTemperature o (a.getD 0 o.zero) (a.getD 1 o.zero)
+  { ints := [if isT then 1 else 0], fs := [bitsOf [v]] }
+
+def runKde {α : Type} [Bits α] (o : XOps α) (r : Req) : Resp :=
+  let d := r.nat 1
+  let samples : List (List α) := chunk20 d (r.fl 0)
+  { fs := [bitsOf [kdeLogEval o (r.d 0) (r.d 1) samples (r.fl 1)]] }
+
+def byPrec (r : Req) (f64 : XOps Float → Req → Resp) (f32 : XOps Float32 → Req → Resp) : Resp :=
+  if r.prec == "f32" then f32 float32X r else f64 floatX r
 
 /-- handler for the ops of this property; `none` = not one of mine -/
-def handleC20 (_r : Req) : Option Resp := none
+def handleC20 (r : Req) : Option Resp :=
+  match r.op with
+  | "c20.tile" => some (tensorResp (tile (tensorOfReq r) (pyValOfJson (jField r.raw "n"))))
+  | "c20.repeat_rows" => some (tensorResp (repeatRows (tensorOfReq r) (pyValOfJson (jField r.raw "n"))))
+  | "c20.merge" => some (tensorResp (mergeLeading (tensorOfReq r) (pyValOfJson (jField r.raw "n"))))
+  | "c20.sum" => some (tensorResp (sumExceptBatch (tensorOfReq r) (pyValOfJson (jField r.raw "n"))))
+  | "c20.split" => some (tensorResp (splitLeading (tensorOfReq r) ((jArr (jField r.raw "sh")).map jInt).toList))
+  | "c20.pred" =>
+    let v := pyValOfJson (jField r.raw "v")
+    let b (x : Bool) : Int := if x then 1 else 0
+    some { ints := [b (isBool v), b (isInt v), b (isPositiveInt v), b (isNonnegInt v), b (isPowerOfTwo v)] }
+  | "c20.mask" =>
+    some (match maskOp (r.str 0) (r.int 0) (r.flag 1) with
+      | .ok m => { ints := m.map Int.ofNat }
+      | .error e => errResp e)
+  | "c20.randmask" =>
+    some (match randomMaskCount (r.int 0) with
+      | .ok c => { ints := [Int.ofNat c] }
+      | .error e => errResp e)
+  | "c20.searchsorted" => some (byPrec r runSearch runSearch)
+  | "c20.cbrt" => some (byPrec r runCbrt runCbrt)
+  | "c20.temp" => some (byPrec r runTemp runTemp)
+  | "c20.kde" =>
+    -- torchutils.py:171-173: `torch.eye(D)` has the default dtype (float32); with float64 inputs `a @ precision` raises.
+    -- The value the float64 formula would give is still returned so that a repaired implementation can be recognised.
+    some (if r.prec == "f32" then runKde float32X r else { runKde floatX r with err := some "RuntimeError" })
+  | "c20.logabsdet" =>
+    let n := r.nat 0
+    let m : List (List Int) := chunk20 n ((jArr (jField r.raw "data")).map jInt).toList
+    some { ints := [detL n m], fs := [[(logabsdetF n m).toBits.toNat]] }
+  | _ => none
 
 end NF
